@@ -296,8 +296,15 @@ def run(ctx):
             plan += [("F1", v, 4 if v is variants[0] else 3, "exact"), ("F2", v, 3, "exact"), ("F1", v, 3, "decimal")]
         plan.append(("F1", dict(variants[1], carry=False), 3, "exact"))
     plan.append(("F1", variants[ctx.seed % 2], 2, "zero"))
+    plan.append(("F1", dict(variants[(ctx.seed + 1) % 4], carry="short_only" if ctx.seed % 2 == 0 else "long_only"), 2, "exact"))
+    plan.append(("F1", variants[1 + (ctx.seed % 2) * 2], 2, "flatspell"))
     for shape, v, depth, al in plan:
         spec = dict(v, shape=shape, alpha=al, capital=64.0, ndates=4)
+        if al == "flatspell":
+            # the book was held, then went completely flat for a date: the index's denominator
+            # must not remember the notional from before
+            spec["alpha"] = "exact"
+            spec["preops"] = [["transact", [], "f", 8.0], ["transact", [], "h", 2.0], ["next"], ["flatten", []]]
         if al == "zero":
             # positions are open while their mark sits at exactly zero (swap-like securities)
             spec["alpha"] = "exact"
